@@ -8,6 +8,18 @@ with import_data: same type, same shape, and the float64 bit patterns (``view(ui
 vals / weights / factor matrices equal, subscripts equal including their order; (c) for sparse tensors the harness
 rewrites the subscripts of the file with another index base b and ``import_data(file, index_base=b)`` must give the
 same subscripts.
+
+Round 2 additions.  *Provenance*: the exported objects are not only freshly constructed ones but also the states public
+operations leave behind - dense tensors grown by assignment (subscript list, slab, corner element, new mode: C-ordered
+buffer, numpy integers in ``shape``), permuted / copy=False tensors, sparse tensors with numpy-integer shapes, explicitly
+stored zeros (+0.0 and -0.0, through the constructor and through ``scale`` by a vector with zeros), grown or aggregated
+sparse tensors, Kruskal tensors after normalize / redistribute / arrange / permute / extract / fixsigns.  The expectation
+is then the state the object holds right before the export (read through its public attributes, checked against a NumPy
+model of the operation where one is cheap).  *Dtypes*: integer (int64/int32/uint8), float32 and boolean data, compared
+by value.  *Call sequences* (``C16/sequence``): 2..4 export/import steps in ONE process, some with explicit (also lossy)
+``fmt_data`` / ``fmt_weights`` and explicit ``index_base``, some with the defaults; every default-format step is judged
+exactly like a first call.  Each sequence runs in a forked child so that state a defective export leaves behind cannot
+leak into the next case (replays reproduce in a fresh process).
 """
 
 from __future__ import annotations
@@ -24,6 +36,7 @@ import pyttb as ttb
 
 from .. import gen, ref
 from ..core import cell
+from ._c16_helpers import isolated
 
 PROPERTY = "C16"
 
@@ -36,12 +49,20 @@ RULE = (
     "the arrays handed in, index base) drawn by Hypothesis; oracle = harness-side parse of the written text (layout, "
     "1-based subscripts) and bit equality (uint64 views) after import_data, plus import of a harness-rewritten file with "
     "index base 0/2/5.  Non-trivial: at least two distinct sizes (dense: F/C order matters; Kruskal/matrix: a "
-    "non-square matrix) and at least one value that does not survive 16 significant digits."
+    "non-square matrix) and at least one value that does not survive 16 significant digits.  Objects come from the "
+    "constructor or from a public operation that leaves another internal state (growth by assignment, scale, "
+    "aggregation, normalize, ...); C16/sequence: 2..4 export/import steps in one process with explicit and default "
+    "formats / index bases, every default step judged as a first call (non-trivial: a default step after an explicit one)."
 )
 ASSUMPTIONS = [
-    "float64 objects are compared bit for bit; integer-dtype tensors/matrices (a minority class) are compared by value, "
-    "because the file format has no dtype and import_data returns float64",
-    "sparse tensors are well-formed (distinct subscripts, non-zero values)",
+    "float64 objects are compared bit for bit; integer / float32 / boolean tensors, matrices and sparse values (a minority "
+    "class) are compared by value, because the file format has no dtype and import_data returns float64",
+    "sparse tensors have distinct subscripts; explicitly stored zeros (a state scale / S*0 / the constructor leave behind) "
+    "are part of the object and must come back as stored",
+    "derived states are produced through public operations only; when the operation itself does not give what its NumPy "
+    "model gives the case is skipped (that operation is another property's subject)",
+    "C16/sequence: steps with an explicit format are performed for the history they create and are not judged (the "
+    "property speaks about the default format)",
     "files live in tempfile.mkdtemp() directories removed at the end of each case",
 ]
 
@@ -128,27 +149,103 @@ def _tokens_equal_bits(tokens, values):
 # --------------------------------------------------------------------------
 
 
-@st.composite
-def _tensor_case(draw, tier):
-    shape = draw(gen.shapes(tier, min_order=1))
-    n = ref.prod(shape)
-    dtype = draw(st.sampled_from(["float"] * 9 + ["int"]))
+_DTYPES = {"float": np.float64, "int": np.int64, "int32": np.int32, "uint8": np.uint8, "float32": np.float32,
+           "bool": np.bool_}
+_DTYPE_CHOICES = ["float"] * 12 + ["int", "int", "int32", "uint8", "float32", "bool"]
+
+
+def _draw_typed(draw, dtype, n, nonzero=False):
+    """n values (python floats) representable in ``dtype``"""
     if dtype == "float":
-        data = draw(st.lists(FULL, min_size=n, max_size=n))
-    else:
-        data = [float(v) for v in draw(st.lists(st.integers(-10 ** 6, 10 ** 6), min_size=n, max_size=n))]
-    return dict(shape=shape, data=data, dtype=dtype)
+        return draw(st.lists(FULL_NZ if nonzero else FULL, min_size=n, max_size=n))
+    if dtype in ("int", "int32"):
+        lo = 1 if nonzero else -10 ** 6
+        return [float(v) for v in draw(st.lists(st.integers(lo, 10 ** 6), min_size=n, max_size=n))]
+    if dtype == "uint8":
+        return [float(v) for v in draw(st.lists(st.integers(1 if nonzero else 0, 255), min_size=n, max_size=n))]
+    if dtype == "bool":
+        return [1.0] * n if nonzero else [float(v) for v in draw(st.lists(st.integers(0, 1), min_size=n, max_size=n))]
+    vals = draw(st.lists(st.floats(-(2.0 ** 100), 2.0 ** 100, allow_nan=False, width=32), min_size=n, max_size=n))  # float32
+    return [float(v) if (v != 0 or not nonzero) else 1.5 for v in vals]
+
+
+_TENSOR_PROV = ["ctor", "ctor", "ctor", "grown", "grown", "grown-slab", "grown-corner", "new-mode", "permuted", "nocopy-C"]
+
+
+@st.composite
+def _tensor_case(draw, tier, max_cells=None):
+    shape = draw(gen.shapes(tier, min_order=1, max_cells=max_cells))
+    n = ref.prod(shape)
+    dtype = draw(st.sampled_from(_DTYPE_CHOICES))
+    data = _draw_typed(draw, dtype, n)
+    prov = draw(st.sampled_from(_TENSOR_PROV)) if dtype == "float" else draw(st.sampled_from(["ctor", "permuted", "nocopy-C"]))
+    return dict(shape=shape, data=data, dtype=dtype, prov=prov, a=draw(st.integers(0, 7)), b=draw(st.integers(1, 7)),
+                v=draw(FULL))
+
+
+def _make_tensor(ctx, case):
+    """(tensor in the state ``prov`` names, the array it denotes by a NumPy model of how it was made)"""
+    shape = tuple(case["shape"])
+    N = len(shape)
+    A = gen.arr_F(shape, case["data"]).astype(_DTYPES[case["dtype"]])
+    prov = case.get("prov", "ctor")
+    a, b = case.get("a", 0), case.get("b", 1)
+    try:
+        if prov == "grown":  # the shared helper: last slab of a mode assigned by a list of subscripts
+            T = gen.build_tensor(dict(shape=list(shape), data=case["data"], prov="grown"))
+            return T, A
+        if prov == "grown-slab":  # last slab of a mode assigned as a subtensor
+            cand = [m for m in range(N) if shape[m] >= 2]
+            if cand:
+                m = cand[a % len(cand)]
+                small = np.take(A, range(shape[m] - 1), axis=m)
+                T = ttb.tensor(small.copy(order="F"), small.shape)
+                key = tuple(slice(shape[m] - 1, shape[m]) if d == m else slice(0, shape[d]) for d in range(N))
+                T[key] = np.take(A, [shape[m] - 1], axis=m)
+                return T, A
+        if prov == "grown-corner":  # one element beyond the present extent: the tensor grows, new cells are zero
+            T = ttb.tensor(A.copy(order="F"), shape)
+            grow = [(b >> d) & 1 for d in range(N)]
+            if not any(grow):
+                grow[a % N] = 1
+            corner = tuple(shape[d] - 1 + grow[d] for d in range(N))
+            T[corner] = case["v"]
+            E = np.zeros(tuple(c + 1 for c in corner))
+            E[tuple(slice(0, s) for s in shape)] = A
+            E[corner] = case["v"]
+            return T, E
+        if prov == "new-mode":  # an element addressed with one more subscript: the order grows
+            T = ttb.tensor(A.copy(order="F"), shape)
+            T[(0,) * N + (1,)] = case["v"]
+            E = np.zeros(shape + (2,))
+            E[..., 0] = A
+            E[(0,) * N + (1,)] = case["v"]
+            return T, E
+        if prov == "permuted":  # result of another operation fed into the export
+            perm = list(range(N))
+            perm = perm[a % N:] + perm[: a % N]
+            inv = np.argsort(perm)
+            T0 = ttb.tensor(np.transpose(A, inv).copy(order="F"))
+            return T0.permute(np.array(perm)), A
+        if prov == "nocopy-C":
+            return ttb.tensor(np.ascontiguousarray(A.copy()), shape, copy=False), A
+    except Exception:  # noqa: BLE001   (growth / permutation themselves are C04's / C07's subject)
+        ctx.skip("building-the-state-raised:" + prov)
+    return ttb.tensor(A.copy(order="F"), shape), A
 
 
 @cell("C16/tensor", strategy=_tensor_case, quick=500, thorough=10000, shards=(2, 8))
 def rt_tensor(ctx, case):
-    shape = tuple(case["shape"])
-    A = gen.arr_F(shape, case["data"])
-    if case["dtype"] == "int":
-        A = A.astype(np.int64)
-    ctx.label(*gen.shape_classes(shape), "dtype-" + case["dtype"])
-    ctx.nt = len(set(shape)) >= 2 and (case["dtype"] == "int" or needs17(case["data"]))
-    T = ttb.tensor(A.copy(order="F"), shape)
+    T, A = _make_tensor(ctx, case)
+    shape = A.shape
+    isfloat = case["dtype"] == "float"
+    if not (tuple(int(s) for s in T.shape) == shape and isinstance(T.data, np.ndarray) and T.data.shape == shape
+            and (np.array_equal(bits(T.data), bits(A)) if isfloat else np.array_equal(T.data, A))):
+        ctx.skip("state-differs-from-model:" + case.get("prov", "ctor"))
+    ctx.label(*gen.shape_classes(shape), "dtype-" + case["dtype"], "prov-" + case.get("prov", "ctor"),
+              "buffer-not-F" if gen.is_grown(T) else "buffer-F",
+              "npint-in-shape" if any(isinstance(x, np.integer) for x in T.shape) else "int-shape")
+    ctx.nt = len(set(shape)) >= 2 and (not isfloat or needs17(A.ravel().tolist()))
     flatF = [float(v) for v in A.ravel(order="F")]
     with Scratch() as sc:
         p = sc.path()
@@ -164,11 +261,11 @@ def rt_tensor(ctx, case):
     ctx.check(tuple(int(s) for s in R.shape) == shape, "tensor-roundtrip-shape", R.shape)
     ctx.require(isinstance(R.data, np.ndarray) and R.data.shape == shape, "tensor-roundtrip-data-shape",
                 getattr(R.data, "shape", None))
-    if case["dtype"] == "float":
+    if isfloat:
         ctx.check(same_bits(R.data, A), "tensor-roundtrip-bits", ref.diff_info(R.data, A))
     else:
         ctx.check(np.array_equal(R.data, A), "tensor-roundtrip-values", ref.diff_info(R.data, A))
-    ctx.check(np.array_equal(T.data, A) and tuple(T.shape) == shape, "export-leaves-object")
+    ctx.check(np.array_equal(T.data, A) and tuple(T.shape) == shape and T.data.dtype == A.dtype, "export-leaves-object")
 
 
 # --------------------------------------------------------------------------
@@ -176,9 +273,12 @@ def rt_tensor(ctx, case):
 # --------------------------------------------------------------------------
 
 
+_SP_PROV = ["ctor", "ctor", "ctor", "npint-shape", "explicit-zero", "explicit-zero", "aggregator", "grown", "scaled-by-zero"]
+
+
 @st.composite
-def _sptensor_case(draw, tier):
-    shape = draw(gen.shapes(tier, min_order=1))
+def _sptensor_case(draw, tier, max_cells=None):
+    shape = draw(gen.shapes(tier, min_order=1, max_cells=max_cells))
     n = ref.prod(shape)
     pattern = draw(st.sampled_from(["none", "one", "some", "some", "all"]))
     subsF = ref.all_subs_F(shape)
@@ -196,28 +296,110 @@ def _sptensor_case(draw, tier):
         keep = keep[::-1]
     elif order == "random" and len(keep) > 1:
         keep = list(draw(st.permutations(keep)))
-    dtype = draw(st.sampled_from(["float"] * 9 + ["int"]))
-    if dtype == "float":
-        vals = draw(st.lists(FULL_NZ, min_size=len(keep), max_size=len(keep)))
-    else:
-        vals = [float(v) for v in draw(st.lists(st.integers(1, 10 ** 6), min_size=len(keep), max_size=len(keep)))]
+    dtype = draw(st.sampled_from(_DTYPE_CHOICES))
+    vals = _draw_typed(draw, dtype, len(keep), nonzero=True)
+    prov = draw(st.sampled_from(_SP_PROV)) if dtype == "float" else draw(st.sampled_from(["ctor", "npint-shape"]))
+    zeros = []
+    if prov in ("explicit-zero", "scaled-by-zero") and keep:
+        # which stored entries are (or are turned into) stored zeros, and with which sign
+        zeros = [draw(st.sampled_from([None, None, 0.0, -0.0])) for _ in keep]
+        if all(z is None for z in zeros):
+            zeros[draw(st.integers(0, len(keep) - 1))] = draw(st.sampled_from([0.0, -0.0]))
+    # one mode made very long (only a sparse tensor can have it): sizes and subscripts beyond 16 / 32 bits in the file
+    huge = None
+    if prov in ("ctor", "npint-shape", "explicit-zero") and draw(st.integers(0, 4)) == 0:
+        huge = [draw(st.integers(0, len(shape) - 1)), draw(st.sampled_from([70000, 2 ** 31 + 5, 10 ** 12]))]
     return dict(shape=shape, subs=[list(subsF[i]) for i in keep], vals=vals, pattern=pattern, order=order, dtype=dtype,
-                base=draw(st.sampled_from([0, 2, 5])))
+                base=draw(st.sampled_from([0, 2, 5, -1, 10, 1000])), prov=prov, zeros=zeros, a=draw(st.integers(0, 7)),
+                huge=huge)
+
+
+def _make_sptensor(ctx, case):
+    """(sptensor in the state ``prov`` names, expected shape / subs / vals by a NumPy model of how it was made)"""
+    shape = tuple(case["shape"])
+    N = len(shape)
+    nnz = len(case["subs"])
+    subs = np.array(case["subs"], dtype=np.int64).reshape(nnz, N)
+    vals = np.array(case["vals"], dtype=float).reshape(nnz, 1).astype(_DTYPES[case["dtype"]])
+    prov = case.get("prov", "ctor")
+    if case.get("huge"):
+        m, H = case["huge"]
+        if nnz:
+            subs[subs[:, m] == shape[m] - 1, m] = H - 1  # the entries in the last slab move to the far end
+        shape = shape[:m] + (H,) + shape[m + 1:]
+    if nnz == 0:
+        return ttb.sptensor(shape=shape), shape, subs, vals
+    try:
+        if prov == "npint-shape":
+            form = case.get("a", 0) % (2 if case.get("huge") else 3)  # (int32 entries cannot hold the very long mode)
+            sh = (lambda: tuple(np.int64(s) for s in shape), lambda: np.array(shape, dtype=np.int64),
+                  lambda: [np.int32(s) for s in shape])[form]()
+            return ttb.sptensor(subs.copy(), vals.copy(), sh), shape, subs, vals
+        if prov == "explicit-zero":
+            for i, z in enumerate(case["zeros"]):
+                if z is not None:
+                    vals[i, 0] = z
+            return ttb.sptensor(subs.copy(), vals.copy(), shape), shape, subs, vals
+        if prov == "scaled-by-zero":  # scale along a mode by a vector with zeros: the products are stored, zeros included
+            m = case.get("a", 0) % N
+            f = np.ones(shape[m])
+            for i, z in enumerate(case["zeros"]):
+                if z is not None:
+                    f[subs[i, m]] = z
+            S = ttb.sptensor(subs.copy(), vals.copy(), shape).scale(f, m)
+            return S, shape, subs, vals * f[subs[:, m]][:, None]
+        if prov == "aggregator":  # distinct subscripts: nothing to combine; stored sorted by rows, shape inferred or given
+            given = case.get("a", 0) % 2 == 0
+            S = ttb.sptensor.from_aggregator(subs.copy(), vals.copy(), shape) if given else \
+                ttb.sptensor.from_aggregator(subs.copy(), vals.copy())
+            eshape = shape if given else tuple(int(x) + 1 for x in subs.max(axis=0))
+            o = np.lexsort(subs.T[::-1])
+            if not (isinstance(S.subs, np.ndarray) and S.subs.shape == subs.shape):
+                ctx.skip("state-differs-from-model:aggregator")
+            # the stored order of from_aggregator is not specified: take it from the object, the content from the model
+            key = {tuple(r): float(v) for r, v in zip(subs.tolist(), vals[:, 0].tolist())}
+            try:
+                ev = np.array([[key[tuple(r)]] for r in S.subs.tolist()])
+            except KeyError:
+                ctx.skip("state-differs-from-model:aggregator")
+            del o
+            return S, eshape, np.array(S.subs, dtype=int), ev
+        if prov == "grown":  # the last stored entry is assigned beyond the present extent: shape grows
+            last = subs[-1]
+            if nnz >= 2:
+                small = tuple(int(x) + 1 for x in subs[:-1].max(axis=0))
+                S = ttb.sptensor(subs[:-1].copy(), vals[:-1].copy(), small)
+                S[tuple(int(x) for x in last)] = float(vals[-1, 0])
+                eshape = tuple(max(a_, int(b_) + 1) for a_, b_ in zip(small, last))
+                return S, eshape, subs, vals
+    except Exception as e:  # noqa: BLE001
+        if type(e).__name__ == "Skip":
+            raise
+        ctx.skip("building-the-state-raised:" + prov)
+    return ttb.sptensor(subs.copy(), vals.copy(), shape), shape, subs, vals
 
 
 @cell("C16/sptensor", strategy=_sptensor_case, quick=500, thorough=10000, shards=(2, 8))
 def rt_sptensor(ctx, case):
-    shape = tuple(case["shape"])
+    S, shape, subs, vals = _make_sptensor(ctx, case)
     N = len(shape)
-    nnz = len(case["subs"])
+    nnz = subs.shape[0]
+    isfloat = case["dtype"] == "float"
+    prov = case.get("prov", "ctor")
+    ok_state = tuple(int(s) for s in S.shape) == shape and (
+        (nnz == 0 and S.subs.size == 0) or
+        (nnz and isinstance(S.subs, np.ndarray) and S.subs.shape == subs.shape and np.array_equal(S.subs, subs)
+         and isinstance(S.vals, np.ndarray) and S.vals.shape == vals.shape and
+         (np.array_equal(bits(S.vals), bits(vals)) if isfloat else np.array_equal(S.vals, vals))))
+    if not ok_state:
+        ctx.skip("state-differs-from-model:" + prov)
     ctx.label(*gen.shape_classes(shape), "pattern-" + case["pattern"], "stored-" + case["order"], "dtype-" + case["dtype"],
-              f"base{case['base']}")
-    ctx.nt = nnz >= 2 and len(set(shape)) >= 2 and (case["dtype"] == "int" or needs17(case["vals"]))
-    subs = np.array(case["subs"], dtype=int).reshape(nnz, N)
-    vals = np.array(case["vals"], dtype=float).reshape(nnz, 1)
-    if case["dtype"] == "int":
-        vals = vals.astype(np.int64)
-    S = ttb.sptensor(subs.copy(), vals.copy(), shape) if nnz else ttb.sptensor(shape=shape)
+              f"base{case['base']}", "prov-" + prov,
+              "stored-zero" if nnz and bool(np.any(vals == 0)) else "no-stored-zero",
+              "npint-in-shape" if any(isinstance(x, np.integer) for x in S.shape) else "int-shape",
+              "huge-mode" if case.get("huge") else "small-modes")
+    ctx.nt = nnz >= 2 and len(set(shape)) >= 2 and (not isfloat or needs17(vals.ravel().tolist()))
+    keep_subs, keep_vals = np.array(S.subs, copy=True), np.array(S.vals, copy=True)
     with Scratch() as sc:
         p = sc.path()
         with ctx.sut("export_data(sptensor)"):
@@ -241,11 +423,8 @@ def rt_sptensor(ctx, case):
         with ctx.sut("import_data(sptensor)"):
             R = ttb.import_data(p)
         _check_sp(ctx, R, shape, subs, vals, case, "sptensor-roundtrip")
-        # explicit default base
-        with ctx.sut("import_data(sptensor, index_base=1)"):
-            R1 = ttb.import_data(p, index_base=1)
-        _check_sp(ctx, R1, shape, subs, vals, case, "sptensor-roundtrip-base1")
-        # another index base: the harness rewrites the subscripts of the file it has just validated
+        # another index base: the harness rewrites the subscripts of the file it has just validated; the explicit
+        # default base and the plain call come after it, so an index base that sticks from the previous call shows
         if file_subs is not None and nnz:
             b = case["base"]
             p2 = sc.path("rebased.tns")
@@ -256,8 +435,15 @@ def rt_sptensor(ctx, case):
             with ctx.sut("import_data(sptensor, index_base=b)"):
                 R2 = ttb.import_data(p2, index_base=b)
             _check_sp(ctx, R2, shape, subs, vals, case, "sptensor-other-base")
-    ctx.check((S.subs.size == 0 and nnz == 0) or (np.array_equal(S.subs, subs) and np.array_equal(S.vals, vals)),
-              "export-leaves-object")
+            with ctx.sut("import_data(sptensor) after another base"):
+                R3 = ttb.import_data(p)
+            _check_sp(ctx, R3, shape, subs, vals, case, "sptensor-roundtrip-after-other-base")
+        # explicit default base
+        with ctx.sut("import_data(sptensor, index_base=1)"):
+            R1 = ttb.import_data(p, index_base=1)
+        _check_sp(ctx, R1, shape, subs, vals, case, "sptensor-roundtrip-base1")
+    ctx.check((S.subs.size == 0 and nnz == 0) or (np.array_equal(S.subs, keep_subs) and np.array_equal(
+        bits(S.vals) if isfloat else S.vals, bits(keep_vals) if isfloat else keep_vals)), "export-leaves-object")
 
 
 def _check_sp(ctx, R, shape, subs, vals, case, what):
@@ -284,30 +470,81 @@ def _check_sp(ctx, R, shape, subs, vals, case, what):
 # --------------------------------------------------------------------------
 
 
+_K_PROV = ["ctor", "ctor", "ctor", "normalize", "normalize-mode", "redistribute", "arrange", "arrange-perm", "permute",
+           "extract", "fixsigns"]
+# derived states are computed by pyttb (norms, products): moderate magnitudes so that nothing overflows
+MODERATE = st.one_of(st.floats(-1e3, 1e3, allow_nan=False, width=64),
+                     st.sampled_from([0.1, 1.0 / 3.0, 0.30000000000000004, -2.5, 1.0, 7.0, 1.0000000000000002, 0.0, -0.0]))
+
+
 @st.composite
-def _ktensor_case(draw, tier):
+def _ktensor_case(draw, tier, max_size=None):
     N = draw(st.integers(1, 3))
     r = draw(st.integers(1, 4))
-    maxs = 4 if tier == "quick" else 6
+    maxs = max_size or (4 if tier == "quick" else 6)
     shape = [draw(st.integers(1, maxs)) for _ in range(N)]
-    w = draw(st.lists(FULL, min_size=r, max_size=r))
-    factors = [draw(st.lists(st.lists(FULL, min_size=r, max_size=r), min_size=n, max_size=n)) for n in shape]
+    prov = draw(st.sampled_from(_K_PROV))
+    V = FULL if prov == "ctor" else MODERATE
+    w = draw(st.lists(V, min_size=r, max_size=r))
+    factors = [draw(st.lists(st.lists(V, min_size=r, max_size=r), min_size=n, max_size=n)) for n in shape]
     layout = [draw(st.sampled_from(["C", "F"])) for _ in range(N)]
-    return dict(shape=shape, rank=r, weights=w, factors=factors, layout=layout, copy=draw(st.booleans()))
+    return dict(shape=shape, rank=r, weights=w, factors=factors, layout=layout, copy=draw(st.booleans()), prov=prov,
+                a=draw(st.integers(0, 7)))
+
+
+def _derive_ktensor(ctx, K, case):
+    """apply the public operation ``prov`` names; the expectation is the state the object then holds"""
+    prov, a = case.get("prov", "ctor"), case.get("a", 0)
+    N, r = len(case["shape"]), case["rank"]
+    try:
+        if prov == "normalize":
+            K.normalize()
+        elif prov == "normalize-mode":
+            K.normalize(mode=a % N)
+        elif prov == "redistribute":
+            K.redistribute(a % N)
+        elif prov == "arrange":
+            K.arrange()
+        elif prov == "arrange-perm":
+            perm = list(range(r))
+            K.arrange(permutation=np.array(perm[a % r:] + perm[: a % r]))
+        elif prov == "permute":
+            perm = list(range(N))
+            K = K.permute(np.array(perm[a % N:] + perm[: a % N]))
+        elif prov == "extract":
+            K = K.extract(list(range(r))[: 1 + a % r])
+        elif prov == "fixsigns":
+            K.fixsigns()
+    except Exception:  # noqa: BLE001   (the operation itself is another property's subject)
+        ctx.skip("building-the-state-raised:" + prov)
+    return K
 
 
 @cell("C16/ktensor", strategy=_ktensor_case, quick=500, thorough=10000, shards=(2, 8))
 def rt_ktensor(ctx, case):
-    shape, r = tuple(case["shape"]), case["rank"]
-    fms = [np.array(f, dtype=float).reshape(n, r) for f, n in zip(case["factors"], shape)]
-    w = np.array(case["weights"], dtype=float)
-    ctx.label(f"order{len(shape)}", f"rank{r}", "non-square-factor" if any(n != r for n in shape) else "square-factors",
-              "has-singleton" if 1 in shape else "no-singleton")
-    allv = list(case["weights"]) + [v for f in case["factors"] for row in f for v in row]
-    ctx.nt = any(n != r and n > 1 and r > 1 for n in shape) and needs17(allv)
+    shape0, r0 = tuple(case["shape"]), case["rank"]
+    fms0 = [np.array(f, dtype=float).reshape(n, r0) for f, n in zip(case["factors"], shape0)]
+    w0 = np.array(case["weights"], dtype=float)
     given = [np.asfortranarray(f.copy()) if lay == "F" else np.ascontiguousarray(f.copy())
-             for f, lay in zip(fms, case["layout"])]
-    K = ttb.ktensor(given, w.copy(), copy=case["copy"])
+             for f, lay in zip(fms0, case["layout"])]
+    K = ttb.ktensor(given, w0.copy(), copy=case["copy"])
+    prov = case.get("prov", "ctor")
+    if prov != "ctor":
+        K = _derive_ktensor(ctx, K, case)
+        if not (isinstance(K, ttb.ktensor) and isinstance(K.weights, np.ndarray) and K.weights.ndim == 1 and
+                all(isinstance(f, np.ndarray) and f.ndim == 2 and f.shape[1] == K.weights.size for f in K.factor_matrices)
+                and np.all(np.isfinite(K.weights)) and all(np.all(np.isfinite(f)) for f in K.factor_matrices)):
+            ctx.skip("derived-state-not-a-finite-ktensor:" + prov)
+    # the object as it is right before the export
+    fms = [np.array(f, dtype=float, copy=True) for f in K.factor_matrices]
+    w = np.array(K.weights, dtype=float, copy=True)
+    shape, r = tuple(f.shape[0] for f in fms), int(w.size)
+    ctx.label(f"order{len(shape)}", f"rank{r}", "non-square-factor" if any(n != r for n in shape) else "square-factors",
+              "has-singleton" if 1 in shape else "no-singleton", "prov-" + prov,
+              "some-factor-C-ordered" if any(f.shape[0] > 1 and f.shape[1] > 1 and not f.flags["F_CONTIGUOUS"]
+                                             for f in K.factor_matrices) else "factors-F-ordered")
+    allv = w.tolist() + [v for f in fms for v in f.ravel().tolist()]
+    ctx.nt = any(n != r and n > 1 and r > 1 for n in shape) and needs17(allv)
     with Scratch() as sc:
         p = sc.path()
         with ctx.sut("export_data(ktensor)"):
@@ -317,12 +554,10 @@ def rt_ktensor(ctx, case):
         ctx.require(len(lines) > k + 1 and lines[k].split() == [str(r)], "ktensor-rank-line", lines[k:k + 1])
         ctx.check(_tokens_equal_bits(lines[k + 1].split(), w.tolist()), "ktensor-file-weights", lines[k + 1])
         pos = k + 2
-        ok_layout = True
         for n_, f in zip(shape, fms):
             blk = lines[pos:pos + 3 + n_]
             if len(blk) < 3 + n_ or blk[0].strip() != "matrix" or blk[1].split() != ["2"] or \
                     blk[2].split() != [str(n_), str(r)]:
-                ok_layout = False
                 ctx.check(False, "ktensor-file-matrix-block-header", blk[:3])
                 break
             rows_ok = all(_tokens_equal_bits(blk[3 + i].split(), f[i, :].tolist()) for i in range(n_))
@@ -336,7 +571,7 @@ def rt_ktensor(ctx, case):
     ctx.require(len(R.factor_matrices) == len(fms), "ktensor-roundtrip-number-of-factors", len(R.factor_matrices))
     for i, (g, f) in enumerate(zip(R.factor_matrices, fms)):
         ctx.check(same_bits(g, f), "ktensor-roundtrip-factor-bits", f"mode {i}: {ref.diff_info(g, f)}")
-    ctx.check(all(np.array_equal(a, b) for a, b in zip(K.factor_matrices, fms)) and np.array_equal(K.weights, w),
+    ctx.check(all(same_bits(np.asarray(a_), b_) for a_, b_ in zip(K.factor_matrices, fms)) and same_bits(K.weights, w),
               "export-leaves-object")
 
 
@@ -346,23 +581,18 @@ def rt_ktensor(ctx, case):
 
 
 @st.composite
-def _matrix_case(draw, tier):
-    maxs = 5 if tier == "quick" else 8
+def _matrix_case(draw, tier, max_size=None):
+    maxs = max_size or (5 if tier == "quick" else 8)
     m, n = draw(st.integers(1, maxs)), draw(st.integers(1, maxs))
-    dtype = draw(st.sampled_from(["float"] * 9 + ["int"]))
-    if dtype == "float":
-        rows = draw(st.lists(st.lists(FULL, min_size=n, max_size=n), min_size=m, max_size=m))
-    else:
-        rows = [[float(v) for v in draw(st.lists(st.integers(-10 ** 6, 10 ** 6), min_size=n, max_size=n))] for _ in range(m)]
+    dtype = draw(st.sampled_from(_DTYPE_CHOICES))
+    rows = [_draw_typed(draw, dtype, n) for _ in range(m)]
     return dict(m=m, n=n, rows=rows, dtype=dtype, layout=draw(st.sampled_from(["C", "F", "transposed-view", "strided-view"])))
 
 
 @cell("C16/matrix", strategy=_matrix_case, quick=500, thorough=10000, shards=(2, 8))
 def rt_matrix(ctx, case):
     m, n = case["m"], case["n"]
-    A = np.array(case["rows"], dtype=float).reshape(m, n)
-    if case["dtype"] == "int":
-        A = A.astype(np.int64)
+    A = np.array(case["rows"], dtype=float).reshape(m, n).astype(_DTYPES[case["dtype"]])
     lay = case["layout"]
     if lay == "C":
         M = np.ascontiguousarray(A.copy())
@@ -376,7 +606,7 @@ def rt_matrix(ctx, case):
         M = big[::2, ::2]
     ctx.label("layout-" + lay, "square" if m == n else "non-square", "dtype-" + case["dtype"],
               "vector-like" if 1 in (m, n) else "proper-matrix")
-    ctx.nt = m != n and m > 1 and n > 1 and (case["dtype"] == "int" or needs17([v for r in case["rows"] for v in r]))
+    ctx.nt = m != n and m > 1 and n > 1 and (case["dtype"] != "float" or needs17([v for r in case["rows"] for v in r]))
     with Scratch() as sc:
         p = sc.path()
         with ctx.sut("export_data(matrix)"):
@@ -394,6 +624,91 @@ def rt_matrix(ctx, case):
     else:
         ctx.check(np.array_equal(R, A), "matrix-roundtrip-values", ref.diff_info(R, A))
     ctx.check(np.array_equal(M, A), "export-leaves-object")
+
+
+# --------------------------------------------------------------------------
+# call sequences in one process: the k-th call depends only on its own arguments
+# --------------------------------------------------------------------------
+
+_FMT_LOSSY = ["%d", "%.4f", "%.3e", "%g", "%10.2f", "%.0f"]
+_FMT_EXACT = ["%.17g", "%.16e", "%.20e"]
+_RT = {}  # kind -> round-trip body, filled below
+
+
+@st.composite
+def _sequence_case(draw, tier):
+    """2..4 steps; at least one step with an explicit format comes before at least one step with the defaults"""
+    n = draw(st.integers(2, 4))
+    first_explicit = draw(st.integers(0, n - 2))
+    later_default = draw(st.integers(first_explicit + 1, n - 1))
+    steps = []
+    for i in range(n):
+        explicit = True if i == first_explicit else (False if i == later_default else draw(st.booleans()))
+        kind = draw(st.sampled_from(["tensor", "sptensor", "ktensor", "matrix"]))
+        obj = draw({"tensor": _tensor_case(tier, max_cells=12), "sptensor": _sptensor_case(tier, max_cells=12),
+                    "ktensor": _ktensor_case(tier, max_size=3), "matrix": _matrix_case(tier, max_size=3)}[kind])
+        fmt = fmtw = None
+        if explicit:
+            which = draw(st.sampled_from(["data", "data", "weights", "both"]))
+            pool = _FMT_LOSSY + _FMT_LOSSY + _FMT_EXACT
+            if which in ("data", "both"):
+                fmt = draw(st.sampled_from(pool))
+            if which in ("weights", "both"):
+                fmtw = draw(st.sampled_from(pool))
+        steps.append(dict(kind=kind, obj=obj, fmt_data=fmt, fmt_weights=fmtw))
+    return dict(steps=steps)
+
+
+def _unjudged_export(ctx, step):
+    """a step with explicit formats: performed for the history it creates, not judged (the property speaks about the
+    default format)"""
+    kind, obj = step["kind"], dict(step["obj"])
+    obj["prov"] = "ctor"
+    kw = {k: v for k, v in (("fmt_data", step["fmt_data"]), ("fmt_weights", step["fmt_weights"])) if v is not None}
+    try:
+        if kind == "tensor":
+            X = _make_tensor(ctx, obj)[0]
+        elif kind == "sptensor":
+            X = _make_sptensor(ctx, obj)[0]
+        elif kind == "ktensor":
+            X = ttb.ktensor([np.array(f, dtype=float).reshape(n_, obj["rank"]) for f, n_ in zip(obj["factors"], obj["shape"])],
+                            np.array(obj["weights"], dtype=float))
+        else:
+            X = np.array(obj["rows"], dtype=float).reshape(obj["m"], obj["n"])
+        with Scratch() as sc:
+            ttb.export_data(X, sc.path(), **kw)
+            ttb.import_data(sc.path())
+        return "explicit-step-answered"
+    except Exception:  # noqa: BLE001
+        return "explicit-step-raised"
+
+
+def _sequence_body(ctx, case):
+    seen_data = seen_weights = False
+    judged_after = 0
+    for step in case["steps"]:
+        fd, fw = step["fmt_data"], step["fmt_weights"]
+        kind = step["kind"]
+        if fd is not None or fw is not None:
+            ctx.label(_unjudged_export(ctx, step), "explicit-lossy" if (fd in _FMT_LOSSY or fw in _FMT_LOSSY) else "explicit-exact")
+            seen_data |= fd is not None
+            seen_weights |= fw is not None
+            continue
+        # default formats: judged like a first call
+        after = seen_data or seen_weights
+        ctx.label("default-step", f"default-{kind}" + ("-after-explicit" if after else "-first"))
+        if after:
+            judged_after += 1
+            ctx.label(*((["after-explicit-fmt_data"] if seen_data else []) + (["after-explicit-fmt_weights"] if seen_weights else [])))
+        _RT[kind](ctx, step["obj"])
+    ctx.nt = judged_after >= 1
+    ctx.label(f"steps{len(case['steps'])}", f"defaults-after-explicit-{min(judged_after, 2)}")
+
+
+@cell("C16/sequence", strategy=_sequence_case, quick=250, thorough=5000, shards=(2, 8))
+def rt_sequence(ctx, case):
+    """every default-format export / default-base import of a sequence is judged exactly like a first call"""
+    isolated(ctx, _sequence_body, case)
 
 
 # --------------------------------------------------------------------------
@@ -429,3 +744,6 @@ def rt_specials(ctx, case):
                              factors=[[vals[3 + 3 * i: 6 + 3 * i] for i in range(4)], [vals[15:18]],
                                       [vals[17 + 3 * i: 20 + 3 * i] for i in range(3)]],
                              layout=["C", "F", "C"], copy=True))
+
+
+_RT.update(tensor=rt_tensor, sptensor=rt_sptensor, ktensor=rt_ktensor, matrix=rt_matrix)
